@@ -21,6 +21,17 @@ from .types import NeedsContract, OutsideSubset
 PROVED, REFUTED, UNKNOWN, ERROR = "proved", "refuted", "unknown", "error"
 
 
+def _chain(fns: list[Callable]) -> Callable:
+    def dispatch(*a: Any, **kw: Any) -> Any:
+        for f in fns:
+            r = f(*a, **kw)
+            if r is not None:
+                return r
+        return None
+
+    return dispatch
+
+
 class NoReceiver(Exception):
     pass
 
@@ -54,7 +65,8 @@ class Verifier:
 
     def new_exec(self) -> Exec:
         ex = Exec(self.repo, self.reg)
-        ex.hooks.update(self.reg.exec_hooks)
+        for name, fns in self.reg.exec_hooks.items():
+            ex.hooks[name] = _chain(fns)
         ex.spec = self.spec_factory(ex)
         return ex
 
@@ -72,6 +84,30 @@ class Verifier:
         env: dict[str, Any] = {}
         params = a.posonlyargs + a.args + a.kwonlyargs
         for idx, p in enumerate(params):
+            if idx == 0 and fi.cls is not None and fi.name == "__post_init__":
+                # ``self`` is an object under construction: fields are the (arbitrary) constructor arguments
+                from .state import UnderConstruction
+
+                classes = self.receiver_classes(fi, ex, k)
+                if len(classes) != 1:
+                    raise OutsideSubset(f"__post_init__ of {fi.cls.name} shared by several classes")
+                ci = classes[0]
+                ref = SV(TRefT(ci), smt.fresh_const("self", smt.Ref), fresh=True)
+                st.assume(ref.z != smt.NONE, smt.typ(ref.z) == ex.types.cid(ci), smt.born(ref.z) == ex.born_clock)
+                ex.born_clock += 1
+                ex.set_known_class(ref, ci, st)
+                uc = UnderConstruction(ref, ci)
+                for f in ci.all_fields():
+                    if f.initvar:
+                        continue
+                    td = ex.field_td(ex.repo.cls(f.owner), f)
+                    v = td.fresh("init_" + f.name)
+                    st.assume(*ex.type_facts(v.z, td, st))
+                    if isinstance(td, TRefT):
+                        st.assume(smt.born(v.z) <= 0)
+                    uc.set_pending(st, f.name, v)
+                env[p.arg] = uc
+                continue
             if idx == 0 and fi.cls is not None and fi.kind in ("method", "property") and p.arg == "self":
                 classes = self.receiver_classes(fi, ex, k)
                 if not classes:
